@@ -135,8 +135,18 @@ func genDoc(r *rand.Rand) Doc {
 	if len(p.Vars) > 0 && r.IntN(8) == 0 {
 		// a name declared twice (an error diagnostic; navigation goes to the first declaration)
 		d := p.Vars[r.IntN(len(p.Vars))]
-		d.Fn, d.Args = "", nil
-		d.Type = []string{"account", "asset", "number", "monetary", "portion", "string"}[r.IntN(6)]
+		if r.IntN(2) == 0 {
+			d.Fn, d.Args = "", nil
+			d.Type = []string{"account", "asset", "number", "monetary", "portion", "string"}[r.IntN(6)]
+		} else if d.Fn == "" && len(p.Vars) > 1 {
+			// the repeated declaration gets an origin that uses another declared variable
+			other := p.Vars[r.IntN(len(p.Vars))]
+			if other.Type == "account" && other.Name != d.Name {
+				d.Type, d.Fn, d.Args = "monetary", "balance", []gen.Expr{*gen.Var(other.Name), *gen.Asset("USD")}
+			} else {
+				d.Type, d.Fn, d.Args = "string", "meta", []gen.Expr{*gen.Acc("a"), *gen.Str("k")}
+			}
+		}
 		p.Vars = append(p.Vars, d)
 	}
 	pr := p.Print()
